@@ -162,14 +162,50 @@ static Token *append(Token *tok1, Token *tok2) {
   return head.next;
 }
 
+#ifdef CHIBICC_VERIF
+// H2: one event per conditional directive, executed (sk=0) or passed over
+// inside a skipped group (sk=1). val: 0/1, or -1 if the controlling
+// expression was not evaluated. depth: open conditionals after the directive.
+static int vt_skip_nest;  // conditionals opened inside the group being skipped
+static bool vt_quiet;     // scanning for an include guard, not skipping
+static int vt_evals;      // number of controlling expressions evaluated so far
+
+static void vt_cond(char *d, Token *hash, int val, int taken, int sk, int ddepth) {
+  if (!vtrace_on() || vt_quiet)
+    return;
+  int depth = vt_skip_nest + ddepth;
+  for (CondIncl *ci = cond_incl; ci; ci = ci->next)
+    depth++;
+  vtrace("\"e\":\"cond\",\"d\":\"%s\",\"file\":\"%s\",\"line\":%d,\"val\":%d,\"taken\":%d,\"sk\":%d,\"depth\":%d",
+         d, vtrace_str(hash->file->name, strlen(hash->file->name)), hash->line_no, val, taken, sk, depth);
+}
+
+static char *vt_directive(Token *tok) {
+  return strndup(tok->loc, tok->len);
+}
+#endif
+
 static Token *skip_cond_incl2(Token *tok) {
   while (tok->kind != TK_EOF) {
     if (is_hash(tok) &&
         (equal(tok->next, "if") || equal(tok->next, "ifdef") ||
          equal(tok->next, "ifndef"))) {
+#ifdef CHIBICC_VERIF
+      vt_cond(vt_directive(tok->next), tok, -1, 0, 1, 1);
+      vt_skip_nest++;
+#endif
       tok = skip_cond_incl2(tok->next->next);
+#ifdef CHIBICC_VERIF
+      vt_skip_nest--;
+#endif
       continue;
     }
+#ifdef CHIBICC_VERIF
+    if (is_hash(tok) && (equal(tok->next, "elif") || equal(tok->next, "else")))
+      vt_cond(vt_directive(tok->next), tok, -1, 0, 1, 0);
+    if (is_hash(tok) && equal(tok->next, "endif"))
+      vt_cond("endif", tok, -1, 0, 1, -1);
+#endif
     if (is_hash(tok) && equal(tok->next, "endif"))
       return tok->next->next;
     tok = tok->next;
@@ -184,7 +220,14 @@ static Token *skip_cond_incl(Token *tok) {
     if (is_hash(tok) &&
         (equal(tok->next, "if") || equal(tok->next, "ifdef") ||
          equal(tok->next, "ifndef"))) {
+#ifdef CHIBICC_VERIF
+      vt_cond(vt_directive(tok->next), tok, -1, 0, 1, 1);
+      vt_skip_nest++;
+#endif
       tok = skip_cond_incl2(tok->next->next);
+#ifdef CHIBICC_VERIF
+      vt_skip_nest--;
+#endif
       continue;
     }
 
@@ -279,6 +322,9 @@ static Token *read_const_expr(Token **rest, Token *tok) {
 
 // Read and evaluate a constant expression.
 static long eval_const_expr(Token **rest, Token *tok) {
+#ifdef CHIBICC_VERIF
+  vt_evals++;
+#endif
   Token *start = tok;
   Token *expr = read_const_expr(rest, tok->next);
   expr = preprocess2(expr);
@@ -899,7 +945,36 @@ static char *detect_include_guard(Token *tok) {
   return NULL;
 }
 
+#ifdef CHIBICC_VERIF
+// H2: one event per #include / #include_next that resolved to a file.
+// idx: index into the include paths, -1 = the including file's directory,
+// -2 = found nowhere, the name is opened as it is (relative to the cwd).
+static char *vt_inc_form = "";
+static char *vt_inc_name = "";
+static bool vt_inc_fallback;
+
+static void vt_inc(Token *filename_tok, char *path, int next_idx, char *skipped) {
+  if (!vtrace_on())
+    return;
+  static bool paths_logged;
+  if (!paths_logged) {
+    paths_logged = true;
+    for (int i = 0; i < include_paths.len; i++)
+      vtrace("\"e\":\"incpath\",\"i\":%d,\"dir\":\"%s\"", i,
+             vtrace_str(include_paths.data[i], strlen(include_paths.data[i])));
+  }
+  char *from = filename_tok->file->name;
+  vtrace("\"e\":\"inc\",\"form\":\"%s\",\"name\":\"%s\",\"resolved\":\"%s\",\"idx\":%d,\"skipped\":\"%s\",\"from\":\"%s\"",
+         vt_inc_form, vtrace_str(vt_inc_name, strlen(vt_inc_name)), vtrace_str(path, strlen(path)),
+         vt_inc_fallback ? -2 : next_idx - 1, skipped, vtrace_str(from, strlen(from)));
+}
+#endif
+
 static Token *include_file(Token *tok, char *path, Token *filename_tok, int next_idx) {
+#ifdef CHIBICC_VERIF
+  if (hashmap_get(&pragma_once, path))
+    vt_inc(filename_tok, path, next_idx, "once");
+#endif
   // Check for "#pragma once"
   if (hashmap_get(&pragma_once, path))
     return tok;
@@ -909,6 +984,10 @@ static Token *include_file(Token *tok, char *path, Token *filename_tok, int next
   // skip the file without opening it.
   static HashMap include_guards;
   char *guard_name = hashmap_get(&include_guards, path);
+#ifdef CHIBICC_VERIF
+  if (guard_name && hashmap_get(&macros, guard_name))
+    vt_inc(filename_tok, path, next_idx, "guard");
+#endif
   if (guard_name && hashmap_get(&macros, guard_name))
     return tok;
 
@@ -920,10 +999,20 @@ static Token *include_file(Token *tok, char *path, Token *filename_tok, int next
     error_tok(filename_tok, "%s: cannot open file: %s", path, strerror(errno));
   tok2->file->include_next_idx = next_idx;
   tok2->file->include_depth = filename_tok->file->include_depth + 1;
+#ifdef CHIBICC_VERIF
+  vt_inc(filename_tok, path, next_idx, "none");
+  vt_quiet = true;
+#endif
 
   guard_name = detect_include_guard(tok2);
   if (guard_name)
     hashmap_put(&include_guards, path, guard_name);
+#ifdef CHIBICC_VERIF
+  vt_quiet = false;
+  if (guard_name && vtrace_on())
+    vtrace("\"e\":\"guard\",\"file\":\"%s\",\"macro\":\"%s\"", vtrace_str(path, strlen(path)),
+           vtrace_str(guard_name, strlen(guard_name)));
+#endif
 
   return append(tok2, tok);
 }
@@ -975,6 +1064,11 @@ static Token *preprocess2(Token *tok) {
 
       if (filename[0] != '/' && is_dquote) {
         char *path = format("%s/%s", dirname(strdup(start->file->name)), filename);
+#ifdef CHIBICC_VERIF
+        vt_inc_form = "quote";
+        vt_inc_name = filename;
+        vt_inc_fallback = false;
+#endif
         if (file_exists(path)) {
           tok = include_file(tok, path, start->next->next, 0);
           continue;
@@ -982,6 +1076,11 @@ static Token *preprocess2(Token *tok) {
       }
 
       char *path = search_include_paths(filename);
+#ifdef CHIBICC_VERIF
+      vt_inc_form = is_dquote ? "quote" : "angle";
+      vt_inc_name = filename;
+      vt_inc_fallback = !path;
+#endif
       tok = include_file(tok, path ? path : filename, start->next->next,
                          path ? include_next_idx : 0);
       continue;
@@ -991,6 +1090,11 @@ static Token *preprocess2(Token *tok) {
       bool ignore;
       char *filename = read_include_filename(&tok, tok->next, &ignore);
       char *path = search_include_next(filename, start->file->include_next_idx);
+#ifdef CHIBICC_VERIF
+      vt_inc_form = "next";
+      vt_inc_name = filename;
+      vt_inc_fallback = !path;
+#endif
       tok = include_file(tok, path ? path : filename, start->next->next,
                          path ? include_next_idx : 0);
       continue;
@@ -1013,6 +1117,9 @@ static Token *preprocess2(Token *tok) {
     if (equal(tok, "if")) {
       long val = eval_const_expr(&tok, tok);
       push_cond_incl(start, val);
+#ifdef CHIBICC_VERIF
+      vt_cond("if", start, cond_incl->included, cond_incl->included, 0, 0);
+#endif
       if (!val)
         tok = skip_cond_incl(tok);
       continue;
@@ -1023,6 +1130,9 @@ static Token *preprocess2(Token *tok) {
         error_tok(tok->next, "macro name must be an identifier");
       bool defined = find_macro(tok->next);
       push_cond_incl(tok, defined);
+#ifdef CHIBICC_VERIF
+      vt_cond("ifdef", start, cond_incl->included, cond_incl->included, 0, 0);
+#endif
       tok = skip_line(tok->next->next);
       if (!defined)
         tok = skip_cond_incl(tok);
@@ -1034,6 +1144,9 @@ static Token *preprocess2(Token *tok) {
         error_tok(tok->next, "macro name must be an identifier");
       bool defined = find_macro(tok->next);
       push_cond_incl(tok, !defined);
+#ifdef CHIBICC_VERIF
+      vt_cond("ifndef", start, cond_incl->included, cond_incl->included, 0, 0);
+#endif
       tok = skip_line(tok->next->next);
       if (defined)
         tok = skip_cond_incl(tok);
@@ -1044,11 +1157,25 @@ static Token *preprocess2(Token *tok) {
       if (!cond_incl || cond_incl->ctx == IN_ELSE)
         error_tok(start, "stray #elif");
       cond_incl->ctx = IN_ELIF;
+#ifdef CHIBICC_VERIF
+      int vt_ev0 = vt_evals;
+      bool vt_skipped = false;
+#endif
 
       if (!cond_incl->included && eval_const_expr(&tok, tok))
         cond_incl->included = true;
       else
+#ifdef CHIBICC_VERIF
+      {
+        vt_skipped = true;
+        vt_cond("elif", start, vt_evals != vt_ev0 ? 0 : -1, 0, 0, 0);
         tok = skip_cond_incl(tok);
+      }
+      if (!vt_skipped)
+        vt_cond("elif", start, vt_evals != vt_ev0 ? 1 : -1, 1, 0, 0);
+#else
+        tok = skip_cond_incl(tok);
+#endif
       continue;
     }
 
@@ -1057,6 +1184,9 @@ static Token *preprocess2(Token *tok) {
         error_tok(start, "stray #else");
       cond_incl->ctx = IN_ELSE;
       tok = skip_line(tok->next);
+#ifdef CHIBICC_VERIF
+      vt_cond("else", start, -1, !cond_incl->included, 0, 0);
+#endif
 
       if (cond_incl->included)
         tok = skip_cond_incl(tok);
@@ -1068,6 +1198,9 @@ static Token *preprocess2(Token *tok) {
         error_tok(start, "stray #endif");
       cond_incl = cond_incl->next;
       tok = skip_line(tok->next);
+#ifdef CHIBICC_VERIF
+      vt_cond("endif", start, -1, 0, 0, 0);
+#endif
       continue;
     }
 
@@ -1083,6 +1216,10 @@ static Token *preprocess2(Token *tok) {
 
     if (equal(tok, "pragma") && equal(tok->next, "once")) {
       hashmap_put(&pragma_once, tok->file->name, (void *)1);
+#ifdef CHIBICC_VERIF
+      if (vtrace_on())
+        vtrace("\"e\":\"once\",\"file\":\"%s\"", vtrace_str(tok->file->name, strlen(tok->file->name)));
+#endif
       tok = skip_line(tok->next->next);
       continue;
     }
